@@ -49,6 +49,12 @@ SCENARIOS = {
     "probe-and-caller": [("probe", "f > b"), ("calls",)],
     # the second thread's probe is on g only, but it calls f while the first thread instruments f for the first time
     "disjoint-functions": [("probe", "f > a"), ("probe", "g > c")],
+    # a thread with a plain (non-tooling) overlay on f calls f while the other thread toggles its probe:
+    # which of its calls are instrumented depends on the schedule, so its events are not asserted
+    "overlay-and-toggler": [("probe", "f > a"), ("overlay", "f > b")],
+    # same, but the toggling thread does not yield voluntarily: one preemption inside its deactivation lets the
+    # overlay thread make its *first* call of f there
+    "overlay-and-straight-toggler": [("probe-straight", "f > a"), ("overlay", "f > b")],
     "three-threads": [("probe", "f > a"), ("probe", "f > b"), ("calls",)],
 }
 
@@ -100,6 +106,8 @@ def expected_for(spec, k):
     results = ((k + 1) * 2, (k + 1) * 2, (k + 2) * 2)
     if spec[0] == "calls":
         return (), results
+    if spec[0] == "overlay":
+        return None, results
     sel = spec[1]
     if sel == "f > a":
         ev = ({"a": k + 1}, {"a": k + 1}, {"a": k + 2})
@@ -128,7 +136,12 @@ def make_bodies(ns, specs, sched_ref):
         def body(spec=spec, k=k):
             f, g = ns["f"], ns["g"]
             events = []
-            if spec[0] == "probe":
+            if spec[0] == "probe-straight":
+                p = probing(spec[1], env={"f": f, "g": g})
+                p.subscribe(lambda ev: events.append(tuple(sorted(ev.items()))))
+                with p:
+                    res = (f(k), g(k), f(k + 1))
+            elif spec[0] == "probe":
                 p = probing(spec[1], env={"f": f, "g": g})
                 p.subscribe(lambda ev: events.append(tuple(sorted(ev.items()))))
                 p.__enter__()
@@ -142,6 +155,18 @@ def make_bodies(ns, specs, sched_ref):
                     res = (r1, r2, r3)
                 finally:
                     p.__exit__(None, None, None)
+            elif spec[0] == "overlay":
+                from ptera import BaseOverlay, Immediate
+                from ptera.selector import select
+
+                ol = BaseOverlay(Immediate(select(spec[1], env={"f": f, "g": g}), trigger=lambda ev: events.append("event")))
+                with ol:
+                    r1 = f(k)
+                    handoff("called-f")
+                    r2 = g(k)
+                    handoff("called-g")
+                    res = (r1, r2, f(k + 1))
+                return None, res
             else:
                 r1 = ns["f"](k)
                 handoff("called-f")
@@ -224,6 +249,8 @@ def units(tier):
         if three and tier == "quick":
             continue
         for cname, critical, bound in CONFIGS[tier]:
+            if critical and tier == "quick" and scenario not in ("same-variable", "different-variables", "disjoint-functions"):
+                continue  # bytecode granularity on the scenarios that race on the counters / code swap
             if three:
                 bound = 1
             warm(scenario)
